@@ -61,7 +61,7 @@ func sameState(tag string, a, b *s3mem.Backend, bucket string, keys []string) {
 // VH_C16: the same logical request in path style and in virtual-host style.
 func VH_C16() {
 	b1, b2 := seedBackend(), seedBackend()
-	mode := vsym.Choice("mode", 4)
+	mode := vsym.Choice("mode", 5)
 	const base1, base2 = "s3.example.test", "alt.example.org:9000"
 	var hostOpts []gofakes3.Option
 	switch mode {
@@ -69,11 +69,18 @@ func VH_C16() {
 		hostOpts = []gofakes3.Option{gofakes3.WithHostBucket(true)}
 	case 1:
 		hostOpts = []gofakes3.Option{gofakes3.WithHostBucketBase(base1)}
+	case 4:
+		// both options: the base list decides (as documented on WithHostBucketBase),
+		// so everything below is as in mode 1
+		hostOpts = []gofakes3.Option{gofakes3.WithHostBucket(true), gofakes3.WithHostBucketBase(base1)}
 	case 2:
 		hostOpts = []gofakes3.Option{gofakes3.WithHostBucketBase("."+base1+".", base2)}
 	default:
 		// nested bases, the shorter one listed first
 		hostOpts = []gofakes3.Option{gofakes3.WithHostBucketBase("example.test", base1, base2)}
+	}
+	if mode == 4 {
+		mode = 1
 	}
 	pathSrv := gofakes3.New(b1, gofakes3.WithTimeSkewLimit(0)).Server()
 	hostSrv := gofakes3.New(b2, append([]gofakes3.Option{gofakes3.WithTimeSkewLimit(0)}, hostOpts...)...).Server()
